@@ -2,4 +2,5 @@ import SemverSpec.Precedence
 import SemverSpec.NpmDiff
 import SemverSpec.Sets
 import SemverSpec.VersionLang
+import SemverSpec.VersionGrammar
 import SemverSpec.Location
